@@ -36,6 +36,8 @@ struct PNoShare : public PTiny1 { static const bool enable_work_sharing = false;
 struct PTree10 : public PS5ParametersDefault { static const size_t smallsort_threshold = 256; static const size_t inssort_threshold = 16; };
 struct PUnroll : public PS5ParametersDefault { static const size_t smallsort_threshold = 32; static const size_t inssort_threshold = 4;
     using Classify = SSClassifyTreeUnrollInterleave<key_type, 3>; };
+struct PEqual : public PS5ParametersDefault { static const size_t smallsort_threshold = 48; static const size_t inssort_threshold = 4;
+    using Classify = SSClassifyEqualUnroll<key_type, 3>; };      // the third classifier of sample_sort_tools.hpp (equality test at every inner node)
 
 #if defined(TLX_VERIF_HOOKS)
 // step life-cycle events from the TLX_VERIF_PS5 hooks, in execution order (under the shim one thread runs at a time and the
@@ -45,7 +47,7 @@ static std::vector<HookEv> g_hook;
 void tlx_verif_ps5_event(const char* ev, const void* step, const void* other, size_t n) { g_hook.push_back({vsched::self(), ev, step, other, n}); }
 #endif
 
-static const char* PNAME[] = {"default-frontend", "tiny1", "tiny2", "tiny3", "no-seq-samplesort", "no-work-sharing", "treebits10", "unroll-classifier", "tiny4", "seqss4096"};
+static const char* PNAME[] = {"default-frontend", "tiny1", "tiny2", "tiny3", "no-seq-samplesort", "no-work-sharing", "treebits10", "unroll-classifier", "tiny4", "seqss4096", "equal-classifier"};
 
 static std::string BB(const std::vector<std::string>& v) {
     std::string o = "[";
@@ -66,7 +68,7 @@ static void one(Out& out, const std::vector<std::string>& strs, int pset, bool l
         UCharStringSet ss(ptrs.data(), ptrs.data() + n);
         if (pset == 0) { if (lcp) tlx::sort_strings_parallel_lcp(ptrs.data(), n, lcps.data()); else tlx::sort_strings_parallel(ptrs.data(), n); return; }
 #define RUNP(P) do { if (lcp) parallel_sample_sort_params<P>(StringLcpPtr<UCharStringSet, std::uint32_t>(ss, lcps.data()), 0, 0); else parallel_sample_sort_params<P>(StringPtr<UCharStringSet>(ss), 0, 0); } while (0)
-        switch (pset) { case 1: RUNP(PTiny1); break; case 2: RUNP(PTiny2); break; case 3: RUNP(PTiny3); break; case 4: RUNP(PNoSeqSS); break; case 5: RUNP(PNoShare); break; case 6: RUNP(PTree10); break; case 8: RUNP(PTiny4); break; case 9: RUNP(PBig1); break; default: RUNP(PUnroll); break; }
+        switch (pset) { case 1: RUNP(PTiny1); break; case 2: RUNP(PTiny2); break; case 3: RUNP(PTiny3); break; case 4: RUNP(PNoSeqSS); break; case 5: RUNP(PNoShare); break; case 6: RUNP(PTree10); break; case 8: RUNP(PTiny4); break; case 9: RUNP(PBig1); break; case 10: RUNP(PEqual); break; default: RUNP(PUnroll); break; }
     }, cfg);
 #if defined(TLX_VERIF_HOOKS)
     {
@@ -107,7 +109,7 @@ static void child(const std::string& line, const char* outpath) {
     // (n > threshold goes to a parallel big step, n < threshold straight to multikey quicksort): for these sizes the matching parameter set is forced
     int forced = n == 4 ? 1 : n == 64 ? 2 : n == 1024 ? 3 : n == 256 ? 6 : n == 32 ? 7 : n == 128 ? 8 : n == 4096 ? 9 : -1;
     for (int rep = 0; rep < 6; ++rep) {
-        int pset = rep == 0 ? 0 : 1 + rnd(8);
+        int pset = rep == 0 ? 0 : 1 + rnd(9); if (pset == 9) pset = 10;
         // (nested sequential sample sort levels with LCP output are where a given-away piece of work can be overtaken by its parent's LCP pass: mostly PCT schedules)
         if (forced == 9 && rep >= 1) { one(out, strs, 9, rep != 4, 2 + rnd(2), x + rep, rep == 3 ? vsched::STICKY : vsched::PCT); continue; }
         if (forced > 0 && rep >= 1) { one(out, strs, forced, rep % 2, 2 + rnd(3), x + rep, ST[rep % 4]); continue; }
